@@ -8,8 +8,10 @@ class FakeSite:
     def __init__(self, file, line): self.file, self.line = file, line
     def loc(self): return f"{self.file}:{self.line}"
 
+SKIP = [0]     # > 0 while a property module is evaluated only to share one of its structural rules with another property (rules.shared.module_rules)
+
 def obl_rule(rid, descr, scope, floor, select=lambda s: True):
-    if os.environ.get("VERIF_DEV_SKIP_OBL"):   # development only (tools/seedmatrix.py fast mode): never set by ./check
+    if os.environ.get("VERIF_DEV_SKIP_OBL") or SKIP[0]:   # development only (tools/seedmatrix.py fast mode): never set by ./check
         r = RuleResult(rid, descr + " [SKIPPED in dev mode]", floor=0); r.counts = {}
         return r, dict(sites=[], wall_s=0)
     facts_dir = os.environ.get("FACTS")
